@@ -59,14 +59,22 @@ def gen_case(rng, length, ci):
         prog.append(("BSetSR", 0, sr))
         sr_set[0] = sr
     use_elem = rng.random() < 0.25
+    # a crowded base: ten and more segments sharing one base name, so that two-digit suffixes get renumbered
+    crowd = rng.choice(BASES) if rng.random() < 0.12 else None
+    if crowd:
+        length = max(length, 18)
     for _ in range(length):
         r = rng.choice(sorted(live))
         k = rng.random()
+        if crowd and rng.random() < 0.5:
+            k = 0.0
         nm = names[r]
         if k < 0.34 or not nm:
             f = rng.choice(list(FUNCS) + ["waituntil"])
             pos = rng.choice([-1, -1, 0, 1, 2, len(nm), len(nm) + 3, rng.randint(0, len(nm) + 1)])
             name = rng.choice([None, None, "", rng.choice(BASES), rng.choice(BASES), rng.choice(BASES)])
+            if crowd and rng.random() < 0.85:
+                name = crowd
             if rng.random() < 0.06:
                 name = rng.choice(BASES) + rng.choice("0123456789")      # rejected: ends in a digit
             if rng.random() < 0.04:
@@ -135,7 +143,7 @@ def gen_case(rng, length, ci):
         prog.append(("EChangeDur", 0, 2, t, 0.75, False))
         prog.append(("EChangeArg", 0, 1, "nosuch", 0, 1, False))
         prog.append(("OEDescr", 0))
-    return {"prog": prog, "kind": "history"}
+    return {"prog": prog, "kind": "crowded" if crowd else "history"}
 
 
 # ---------------------------------------------------------------- statement oracle (implementation only)
